@@ -89,7 +89,7 @@ func runC18(c *core.Ctx) {
 		c.Sample("measurement", d)
 	}
 	idx := 0
-	for _, t := range dyn.Types[:dyn.NBuiltin] {
+	for _, t := range dyn.ElemTypes() {
 		idx++
 		if !c.Mine(idx) {
 			continue
@@ -120,7 +120,21 @@ func runC18(c *core.Ctx) {
 			}
 		}
 	}
-	for vi, cv := range dyn.Convs {
+	for xi, xp := range dyn.ExtraPairs {
+		idx++
+		if !c.Mine(idx) {
+			continue
+		}
+		for _, ch := range chans {
+			for _, l := range lens {
+				for _, p := range xp.Probes(ch, l) {
+					check(p, ch, l)
+				}
+			}
+		}
+		_ = xi
+	}
+	for vi, cv := range dyn.AllConvs() {
 		idx++
 		if !c.Mine(idx) {
 			continue
